@@ -70,9 +70,7 @@ theorem step_txs (s : St) (op : Op) :
     left; simp only [step, rDrop]; split <;> (try rfl)
     simp only []
     split
-    · split
-      · rfl
-      · rw [rxCloseInternal_txs]
+    · rfl
     · rw [rxCloseInternal_txs]
   | rConv q => left; simp only [step, rConv]; split <;> rfl
   | tryRecv q => left; simp only [step, tryRecv]; split <;> (try rfl); exact recvWith_txs ..
